@@ -124,7 +124,7 @@ fn main() {
       let rule: String;
       match prop.as_str() {
         "C10" => {
-          let cases = std::env::var("VERIF_CASES").ok().and_then(|s| s.parse().ok()).unwrap_or(ctx.tier.pick(1_500u64, 60_000u64));
+          let cases = std::env::var("VERIF_CASES").ok().and_then(|s| s.parse().ok()).unwrap_or(ctx.tier.pick(3_000u64, 60_000u64));
           let scheds = ctx.tier.pick(48usize, 200usize);
           vcore::set_current_engine("E3-locks");
           let out = vcore::drive(&ctx, &check.findings, 11, cases, move || locks::scenario_strategy(scheds), |s| locks::execute(s));
@@ -132,7 +132,7 @@ fn main() {
           rule = "generated programs of 2-4 threads over HybridMutex / HybridRwLock (lock/try_lock/read/write/try_*/async acquire with cancellation) x generated schedules; non-trivial = two threads contended for the lock (a thread found it held) in at least one schedule; distinct = hash of the program".into();
         }
         "C08" => {
-          let cases = std::env::var("VERIF_CASES").ok().and_then(|s| s.parse().ok()).unwrap_or(ctx.tier.pick(2_400u64, 100_000u64));
+          let cases = std::env::var("VERIF_CASES").ok().and_then(|s| s.parse().ok()).unwrap_or(ctx.tier.pick(5_000u64, 100_000u64));
           let scheds = ctx.tier.pick(48usize, 200usize);
           vcore::set_current_engine("E3-topic");
           let out = vcore::drive(&ctx, &check.findings, 12, cases, move || topicp::scenario_strategy(scheds), |s| topicp::execute(s));
@@ -142,14 +142,14 @@ fn main() {
         _ => {
           if (prop == "C05" || prop == "C04") && std::env::var("VERIF_FLAVOUR").is_err() {
             // topic mailboxes park and disconnect too (hook H1c)
-            let cases = std::env::var("VERIF_CASES").ok().and_then(|s| s.parse().ok()).unwrap_or(ctx.tier.pick(600u64, 25_000u64));
+            let cases = std::env::var("VERIF_CASES").ok().and_then(|s| s.parse().ok()).unwrap_or(ctx.tier.pick(1_200u64, 25_000u64));
             let scheds = ctx.tier.pick(48usize, 200usize);
             vcore::set_current_engine("E3-topic");
             let out = vcore::drive(&ctx, &check.findings, 12, cases, move || topicp::scenario_strategy(scheds), |s| topicp::execute(s));
             check.absorb("E3-topic", out);
           }
           let fl = flavours_env(prog::flavours_for(&prop));
-          let cases = std::env::var("VERIF_CASES").ok().and_then(|s| s.parse().ok()).unwrap_or(ctx.tier.pick(2_400u64, 100_000u64));
+          let cases = std::env::var("VERIF_CASES").ok().and_then(|s| s.parse().ok()).unwrap_or(ctx.tier.pick(5_000u64, 100_000u64));
           let scheds = ctx.tier.pick(48usize, 200usize);
           let p2 = prop.clone();
           vcore::set_current_engine("E3");
